@@ -54,17 +54,133 @@ theorem C05_shutting_down_iff (s : St) :
     simp [this]
 
 /-- Draining: as long as work is pending (and no kill was requested) the manager keeps serving — it
-    goes back to `add_call_item_to_queue` / `wait` — and it proceeds to `join_executor_internals`
-    exactly when nothing is pending any more. -/
+    makes a pass of `add_call_item_to_queue` right away (`mAddF`, described by `C05_pass_after_flag`) —
+    and it proceeds to `join_executor_internals` at once when nothing is pending. -/
 theorem C05_drain_before_join (s : St) (hk : s.killFlag = false) :
-    (s.pending = [] → mAfterFlag s = mJoinStart s) ∧ (s.pending ≠ [] → mAfterFlag s = mAdd s) := by
+    (s.pending = [] → mAfterFlag s = mJoinStart s) ∧ (s.pending ≠ [] → mAfterFlag s = mAddF s) := by
   unfold mAfterFlag; constructor <;> intro h <;> simp [hk, h]
+
+/-- The pass of `add_call_item_to_queue` made right after flagging is the ordinary pass (`mAdd`: same futures, same
+    table, same queues), and it ends in exactly one of three ways: still inside the pass, blocked on a call-queue
+    slot with work id `i` in hand; finished with work items left in the table — the thread announces `wait` on the
+    current sentinels; finished with the table emptied (it held only cancelled futures) — the thread goes on to
+    `join_executor_internals` instead of waiting. -/
+theorem C05_pass_after_flag (s : St) :
+    (∃ i, (mAdd s).mpc = .addAcq i ∧ mAddF s = { mAdd s with mpc := .addAcqF i })
+    ∨ ((mAdd s).mpc = .wait s.procDict ∧ (mAdd s).pending ≠ [] ∧ mAddF s = mAdd s)
+    ∨ ((mAdd s).mpc = .wait s.procDict ∧ (mAdd s).pending = [] ∧ mAddF s = mJoinStart (mAdd s)) :=
+  mAddF_cases s
+
+/-- **The fix, on the model**: after `flag_executor_shutting_down` the manager never announces `wait` with an empty
+    table of pending work items (whatever the kill flag) … -/
+theorem C05_no_wait_on_emptied_table (s : St) (sn : List Pid) (hw : (mAfterFlag s).mpc = .wait sn) :
+    (mAfterFlag s).pending ≠ [] := by
+  unfold mAfterFlag at hw ⊢
+  split
+  · rename_i hk; simp only [hk, if_true] at hw
+    unfold mKillNext at hw; split at hw <;> simp [mJoinStart] at hw
+  · rename_i hk
+    split
+    · rename_i hp; simp [hk, hp, mJoinStart] at hw
+    · rename_i hp; simp only [hk, hp, if_false, Bool.false_eq_true] at hw
+      exact mAddF_wait_pending s sn hw
+
+/-- … neither at the step that ends `flag_executor_shutting_down` nor at the later steps of the pass it starts
+    (the blocking acquire of a call-queue slot, the start of the feeder thread). -/
+theorem C05_no_wait_on_emptied_table_step (s s' : St) (v : Variant)
+    (hpc : s.mpc = .flagRel ∨ (∃ i, s.mpc = .addAcqF i) ∨ (∃ i, s.mpc = .addTStartF i))
+    (hs : stepM s v = some s') (sn : List Pid) (hw : s'.mpc = .wait sn) : s'.pending ≠ [] := by
+  unfold stepM at hs
+  rcases hpc with hpc | ⟨i, hpc⟩ | ⟨i, hpc⟩
+  · cases v <;> simp only [hpc] at hs <;> first | (cases hs; done) | skip
+    cases hs; exact C05_no_wait_on_emptied_table _ sn hw
+  · cases v <;> simp only [hpc, acq_map] at hs <;> first | (cases hs; done) | skip
+    split at hs
+    · cases hs
+      split at hw
+      · cases hw
+      · rename_i hf; simp only [hf, if_false]; exact mAddF_wait_pending _ sn hw
+    · cases hs
+  · cases v <;> simp only [hpc] at hs <;> first | (cases hs; done) | skip
+    cases hs; exact mAddF_wait_pending _ sn hw
+
+/-- … and when the pass does end with work items left, the sentinels the thread then waits on are the current
+    registry (as for every other `wait`, `C02_wait_snapshot_is_current`). -/
+theorem C05_wait_after_flag_snapshot (s : St) (sn : List Pid) (hw : (mAddF s).mpc = .wait sn) : sn = s.procDict := by
+  rcases mAddF_mpc s with ⟨i, _, e⟩ | ⟨_, e, _⟩ | ⟨_, e, _⟩ <;> rw [e] at hw <;> cases hw
+  rfl
+
+/-- Not vacuous, both ways.  A table holding one cancelled work item that `add_call_item_to_queue` has not looked at
+    yet: the pass drops it and the manager goes on to `join_executor_internals` with an empty table (before the fix:
+    `wait`, for ever) … -/
+example :
+    let s : St := { cfg := { maxWorkers := 1, timeout := false, tasks := [{}], scripts := [] }, cqSem := 3,
+                    uscript := fun _ => [], shutdownFlag := true, pending := [0], workIds := [0],
+                    futs := [.cancelled], taskOf := [0], procDict := [100], mpc := .flagRel }
+    ((mAfterFlag s).mpc, (mAfterFlag s).pending, (mAdd s).mpc, (mAdd s).pending)
+      = (.jAcq1, [], .wait [100], []) := by decide +kernel
+/-- … a table holding a running work item: the manager waits for its result, on the current sentinels … -/
+example :
+    let s : St := { cfg := { maxWorkers := 1, timeout := false, tasks := [{}], scripts := [] }, cqSem := 2,
+                    uscript := fun _ => [], shutdownFlag := true, pending := [0], running := [0],
+                    futs := [.running], taskOf := [0], procDict := [100], mpc := .flagRel }
+    ((mAfterFlag s).mpc, (mAfterFlag s).pending) = (.wait [100], [0]) := by decide +kernel
+/-- … and a table holding a work item not yet dispatched: the pass dispatches it (`addAcqF`). -/
+example :
+    let s : St := { cfg := { maxWorkers := 1, timeout := false, tasks := [{}], scripts := [] }, cqSem := 3,
+                    uscript := fun _ => [], shutdownFlag := true, pending := [0], workIds := [0],
+                    futs := [.pending], taskOf := [0], procDict := [100], mpc := .flagRel }
+    ((mAfterFlag s).mpc, (mAfterFlag s).pending, (mAfterFlag s).futs) = (.addAcqF 0, [0], [.running]) := by
+  decide +kernel
 
 /-- graceful shutdown fails no future: the flag step leaves every future as it is -/
 theorem C05_flag_touches_no_future (s : St) (hk : s.killFlag = false) (hp : s.pending = []) :
     (mAfterFlag s).futs = s.futs ∧ (mAfterFlag s).broken = s.broken := by
   have := (C05_drain_before_join s hk).1 hp
   rw [this]; simp [mJoinStart]
+
+/-! #### the same on a run from the initial state
+
+One worker; `submit(t0)`; while `t0` runs, `submit(t1)`, `t1`'s future is cancelled, `shutdown(wait=False)`.  The
+manager processes the result of `t0`, sees that the executor is shutting down, flags it — and its table holds
+exactly the cancelled future of `t1`, whose work id `add_call_item_to_queue` has not looked at yet. -/
+
+def cfgCancelledLeft : Cfg :=
+  { maxWorkers := 1, timeout := false, tasks := [{}, {}],
+    scripts := [[.create, .submit 0, .submit 1, .cancel 1, .shutdown false false]] }
+
+/-- up to the manager's `flagRel` announcement -/
+def schedCancelledLeft : List (Actor × Variant) :=
+  [(.U 0, .ok), (.U 0, .ok), (.U 0, .ok), (.U 0, .ok), (.U 0, .ok), (.U 0, .ok), (.U 0, .ok), (.U 0, .ok),
+   (.U 0, .ok), (.U 0, .ok), (.U 0, .ok), (.M, .ok), (.M, .ok), (.M, .ok), (.M, .ok), (.M, .ok), (.M, .ok),
+   (.M, .fail), (.F, .ok), (.F, .ok), (.F, .ok), (.F, .ok), (.W 100, .ok), (.W 100, .ok), (.W 100, .ok),
+   (.W 100, .ok), (.W 100, .ok), (.W 100, .ok), (.W 100, .ok), (.W 100, .ok), (.W 100, .ok), (.U 0, .ok),
+   (.U 0, .ok), (.U 0, .ok), (.U 0, .ok), (.U 0, .ok), (.U 0, .ok), (.U 0, .ok), (.U 0, .ok), (.U 0, .ok),
+   (.U 0, .ok), (.U 0, .ok), (.U 0, .ok), (.U 0, .ok), (.M, .ok), (.M, .ok), (.M, .ok), (.M, .ok), (.M, .ok),
+   (.M, .ok), (.M, .fail), (.M, .ok)]
+/-- the rest of the run: `join_executor_internals`, the feeder's and the worker's exit -/
+def schedCancelledLeftEnd : List (Actor × Variant) :=
+  [(.M, .ok), (.M, .ok), (.M, .ok), (.M, .ok), (.M, .ok), (.M, .ok), (.M, .ok), (.M, .ok), (.M, .ok), (.M, .ok),
+   (.F, .ok), (.F, .ok), (.F, .ok), (.F, .ok), (.W 100, .ok), (.W 100, .ok), (.W 100, .ok),
+   (.W 100, .ok), (.W 100, .ok), (.W 100, .ok), (.W 100, .ok), (.W 100, .ok), (.W 100, .ok), (.W 100, .ok),
+   (.M, .ok), (.M, .ok)]
+
+/-- the situation is reachable: flagged, the only work item left is a cancelled one, still in the work-id queue … -/
+theorem C05_witness_cancelled_left :
+    (run (init cfgCancelledLeft) schedCancelledLeft).map
+        (fun s => (s.mpc, s.killFlag, s.pending, s.workIds, s.futs))
+      = some (.flagRel, false, [1], [1], [.value, .cancelled]) := by decide +kernel
+
+/-- … the manager's next step empties the table and goes on to `join_executor_internals` (it does not `wait`) … -/
+theorem C05_witness_cancelled_left_joins :
+    (run (init cfgCancelledLeft) (schedCancelledLeft ++ [(.M, .ok)])).map (fun s => (s.mpc, s.pending, s.workIds))
+      = some (.jAcq1, [], []) := by decide +kernel
+
+/-- … and the run ends: manager thread, feeder thread and worker gone, the user's calls returned. -/
+theorem C05_witness_cancelled_left_ends :
+    (run (init cfgCancelledLeft) (schedCancelledLeft ++ (.M, .ok) :: schedCancelledLeftEnd)).map
+        (fun s => ((s.mpc, s.fpc, s.w 100, s.upc 0), (s.pending, s.futs)))
+      = some ((.done, .done, .dead, .done), ([], [.value, .cancelled])) := by decide +kernel
 
 /-- A later `submit` raises `ShutdownExecutorError`: no future is created, nothing is queued. -/
 theorem C05_submit_after_shutdown_raises (s s' : St) (k : Nat) (t : Tid)
